@@ -241,6 +241,10 @@ func suiteFlist(h *H) {
 			switch k := h.rng.Intn(10); {
 			case k < 4:
 				os.WriteFile(p, h.bytes(h.pick(0, 1, 10, 700)), os.FileMode(h.pick(0o644, 0o600, 0o755, 0o400, 0o777, 0)))
+				if h.rng.Intn(6) == 0 && !o.checksum {
+					// sparse file: lengths around the 32/64-bit boundary of the length field
+					os.Truncate(p, int64([]int64{1<<31 - 1, 1 << 31, 1<<32 - 1, 1 << 32, 1<<33 + 5, 1 << 40}[h.rng.Intn(6)]))
+				}
 			case k < 6:
 				os.Mkdir(p, os.FileMode(h.pick(0o755, 0o700, 0o555)))
 				if utf8ok(name) {
